@@ -60,6 +60,20 @@ def addAll (b : ClassDefBuilder) : List (List Nat) → ClassDefBuilder × List B
     let (b'', oks) := addAll b' cs
     (b'', ok :: oks)
 
+/-- chunk a list into rows of `n` -/
+def chunks {α : Type} (n : Nat) (xs : List α) : List (List α) :=
+  if n = 0 then [] else
+  let rec go (fuel : Nat) (xs : List α) (acc : List (List α)) : List (List α) :=
+    match fuel, xs with
+    | 0, _ => acc.reverse
+    | _, [] => acc.reverse
+    | fuel + 1, xs => go fuel (xs.drop n) (xs.take n :: acc)
+  go xs.length xs []
+
+def bits4 (x : Nat) : List Bool := [x % 2 == 1, x / 2 % 2 == 1, x / 4 % 2 == 1, x / 8 % 2 == 1]
+
+def showDevVR (r : DevVR Nat) : String := joinNats (r.devs.map (fun d => d.getD 0))
+
 def handle (cmd : String) (args : List String) : Option String :=
   match cmd, (splitBar args).mapM nats? with
   | _, none => none
@@ -133,6 +147,24 @@ def handle (cmd : String) (args : List String) : Option String :=
         | some ts => some (joinNats pts ++ " | " ++ " | ".intercalate (ts.map (fun t =>
             showCoverage t.cov ++ " ; " ++ showClassDef t.classDef1 ++ " ; " ++
               joinNats (t.rows.map (fun r => r.headD 0)))))
+    | _, _ => none
+  | "ppf2.devs", some [ctbl, cdtbl, [k2], pts, devIds, flags] =>
+    -- the split loop of `split_pair_pos_format_2` with the device-offset bookkeeping of
+    -- `split_off_ppf2` / `copy_value_rec` at the real run's split points: cell `n` (row-major) has
+    -- scalar `n`; `flags[n]` bits 0-3 / 4-7 = non-null device offsets of value record 1 / 2;
+    -- `devIds` = the subtable's offset list after coverage and the two class definitions
+    match parseCoverage? ctbl, parseClassDef? cdtbl with
+    | some c, some cd =>
+      if k2 = 0 then none else
+      let cells : List (RawVR Nat × RawVR Nat) :=
+        (List.range flags.length).zipWith (fun n f => (⟨n, bits4 (f % 16)⟩, ⟨n, bits4 (f / 16)⟩)) flags
+      let t : PairPos2G Nat := ⟨⟨c, cd, .fmt2 [], chunks k2 cells⟩, 0 :: 0 :: 0 :: devIds⟩
+      match splitPpf2GGo t 0 3 pts with
+      | none => some "trap"
+      | some ts => some (" | ".intercalate (ts.map (fun t =>
+          showCoverage t.cov ++ " ; " ++ showClassDef t.classDef1 ++ " ; " ++
+            " , ".intercalate (t.rows.map (fun r => " ".intercalate (r.map (fun c =>
+              toString c.1.scalars ++ " " ++ showDevVR c.1 ++ " " ++ showDevVR c.2)))))))
     | _, _ => none
   | "mb.split", some (mctbl :: [classCount] :: pts :: marks :: rows) =>
     -- `split_off_mark_pos` for every range of the given split points; mark record `i` = (class,
